@@ -31,7 +31,7 @@ def _pre(case, ctx):
         case["ops"] = [op if op["op"] != "index" else {"op": "update", "picks": op["picks"], "newargs": None, "tag": "min", "via": "request", "style": "or"} for op in case["ops"]]
 
 
-check_case, run, replay = gfi_hist.make_prop(CFG, CHECKS, kinds=TOP, nontrivial=nontrivial, examples=(8, 8), pre=_pre)
+check_case, run, replay = gfi_hist.make_prop(CFG, CHECKS, kinds=TOP, nontrivial=nontrivial, examples=(6, 6), pre=_pre)
 
 
 def probes(ctx):
